@@ -170,8 +170,9 @@ class _RedisConsumer(ConsumerT):
             except Exception:  # pragma: no cover  # noqa: BLE001
                 return None
 
-            # check if any of the new message names is meeting `startswith_topics` condition
-            for name in names:
+            # check if any of the new message names is meeting `startswith_topics` condition;
+            # a normal queue keeps its oldest message at the tail, so its window is scanned from the end
+            for name in names if delayed else reversed(names):
                 str_name = name.decode()
                 if not startswith_topics or str_name.startswith(startswith_topics):
                     return str_name
